@@ -101,7 +101,37 @@ theorem json_roundtrip (c : Circuit) (seq : List Op) (h : ∀ op ∈ seq, InRang
     fromJson (toJson c seq) = .ok { ne := c.ne, np := c.np, nc := c.nc, ops := seq } :=
   fromJson_toJson c seq h hw
 
-/-! ## 5. Determinism -/
+/-! ## 5. The text read with standard openQASM 2.0 semantics -/
+
+/-- **composite body order = application order** (the list-reversal lemma behind D21): a wrapper whose `operations` list
+    is `gs` acts as `gs` reversed (`OneQubitGateWrapper.unwrap`), and the body of the composite gate it defines lists
+    exactly those classes' gate names in that (application) order -/
+theorem composite_body_is_application_order (gs : List G1) (q : QReg) :
+    (compOf gs).body = ((flat [Op.wrap gs q]).filterMap fun o => match o with | .one g _ => some (g1Name g) | _ => none) := by
+  rw [flat_wrap]
+  show ((gs.filter (· != .I)).map g1Name).reverse = _
+  rw [← List.map_reverse]
+  generalize (gs.filter (· != .I)).reverse = l
+  induction l with
+  | nil => rfl
+  | cons g rest ih => simp only [List.map_cons, List.filterMap_cons, ih]
+
+/-- every wrapper with two or more non-identity classes that was added to the circuit has its composite definition in
+    the header, and every header entry is a class definition or such a composite -/
+theorem header_has_the_composites (c : Circuit) : ∃ defs, headerOf c.ops = .ok ([], defs) ∧ (∀ d ∈ defs, EntryOK d) ∧
+    ∀ gs q, Op.wrap gs q ∈ c.ops → 2 ≤ (gs.filter (· != .I)).length → compEntry gs ∈ defs :=
+  headerOf_comps c.ops
+
+/-- **standard reading.**  For every circuit and every order `seq` of (some of) its operations, the exported program
+    read with standard openQASM 2.0 semantics — a call of a composite gate executes its body in textual order, barriers
+    do nothing — is exactly the sequence of the circuit's own primitive operations in application order
+    (`stdSpec`: wrappers unwrapped, identities dropped, idioms as measure / conditional gate / reset); `stdOfCircuit`,
+    which the driver prints for the correspondence run, computes that same sequence. -/
+theorem standard_reading (c : Circuit) (seq : List Op) (hsub : ∀ op ∈ seq, op ∈ c.ops) :
+    (∃ p, toOpenqasm c seq = .ok p ∧ qasmStd p = stdSpec seq) ∧ stdOfCircuit seq = .ok (stdSpec seq) :=
+  ⟨qasmStd_toOpenqasm c seq hsub, stdOfCircuit_spec seq⟩
+
+/-! ## 6. Determinism -/
 
 /-- export is a function of (registers, operations as added, `sequence()` order): the model has no other state.
     (That the *implementation* has none — exporting twice, exporting a deep copy, exporting a rebuilt circuit — is what
@@ -119,14 +149,17 @@ def demo : Circuit :=
             .cctrl .MCR ⟨.e, 1⟩ ⟨.p, 0⟩ 0, .cctrl .CCZ ⟨.e, 1⟩ ⟨.p, 0⟩ 0, .meas ⟨.e, 0⟩ 0, .one .I ⟨.e, 0⟩,
             .wrap [.I] ⟨.p, 1⟩, .wrap [.S, .I] ⟨.p, 0⟩] }
 
-example : ∀ op ∈ demo.ops, InRange demo op := by decide
-example : ∀ op ∈ demo.ops, wrapOK op = true := by decide
+example : ∀ op ∈ demo.ops, InRange demo op := by decide +kernel
+example : ∀ op ∈ demo.ops, wrapOK op = true := by decide +kernel
 example : (toOpenqasm demo demo.ops).bind fromOpenqasm =
     .ok { ne := 2, np := 2, nc := 1,
           ops := [.one .H ⟨.e, 0⟩, .wrap [.H, .Sdg, .Z] ⟨.p, 1⟩, .ctrl .CNOT ⟨.e, 0⟩ ⟨.p, 1⟩,
                   .cctrl .MCR ⟨.e, 1⟩ ⟨.p, 0⟩ 0, .cctrl .CCZ ⟨.e, 1⟩ ⟨.p, 0⟩ 0, .meas ⟨.e, 0⟩ 0, .one .S ⟨.p, 0⟩] } := by
-  decide
-example : fromJson (toJson demo demo.ops) = .ok demo := by decide
-example : ∀ g ∈ [G1.H, G1.Sdg, G1.Z], g ≠ G1.I := by decide
+  decide +kernel
+example : fromJson (toJson demo demo.ops) = .ok demo := by decide +kernel
+example : (match toOpenqasm demo demo.ops with
+    | .ok p => decide (qasmStd p = stdSpec demo.ops) && !(qasmStd p).isEmpty
+    | .error _ => false) = true := by decide +kernel
+example : ∀ g ∈ [G1.H, G1.Sdg, G1.Z], g ≠ G1.I := by decide +kernel
 
 end Graphiq.C14
